@@ -640,9 +640,9 @@ func (tr *fnTrans) appendOp(cc *ssa.CallCommon, ins ssa.Instruction) Term {
 	for _, comp := range names {
 		oldA := tr.get(tr.cur, comp, tr.compSort[comp])
 		newA := tr.c.freshConst(comp, tr.compSort[comp])
-		rref := func(k string) string { return app("eref", app("s_arr", r.S), "(+ "+app("s_off", r.S)+" "+k+")") }
-		sref := func(k string) string { return app("eref", app("s_arr", s.S), "(+ "+app("s_off", s.S)+" "+k+")") }
-		tref := func(k string) string { return app("eref", app("s_arr", t.S), "(+ "+app("s_off", t.S)+" "+k+")") }
+		rref := func(k string) string { return app("selem", r.S, k) }
+		sref := func(k string) string { return app("selem", s.S, k) }
+		tref := func(k string) string { return app("selem", t.S, k) }
 		// prefix preserved, suffix copied, everything outside the result's new cells unchanged
 		tr.assume(fmt.Sprintf("(forall ((qv!k Int)) (! (=> (and (<= 0 qv!k) (< qv!k %s)) (= (select %s %s) (select %s %s))) :pattern ((select %s %s))))",
 			app("s_len", s.S), newA, rref("qv!k"), oldA, sref("qv!k"), newA, rref("qv!k")))
